@@ -210,11 +210,12 @@ def main():
         "setup_cmd": "true",
         "hooks": {
             "guard": "NORMINETTE_VERIF",
-            "enable": "no in-tree hook: monitors wrap public class attributes of norminette from the harness "
-                      "(nv/mon.py); CLI children are instrumented through nv/site/sitecustomize.py on PYTHONPATH, "
-                      "active only when NORMINETTE_VERIF=1",
+            "enable": "export NORMINETTE_VERIF=1 before importing norminette (./vcheck and every worker / CLI child do): "
+                      "Lexer._verif_cursor() and Errors._verif_items() are then defined; the monitors (nv/mon.py) wrap public "
+                      "class attributes from the harness and use the two hooks instead of private attribute names; CLI children "
+                      "are instrumented through nv/site/sitecustomize.py on PYTHONPATH when NV_TRACE is set",
             "baseline_off_cmd": "cd /repo && /venv/bin/python -m pytest -q -p no:cacheprovider",
-            "source_commits": [],
+            "source_commits": ["a0299b1"],
             "add_only": True,
         },
         "engines": [{"name": "nv", "path": "nv/", "serves_properties": [c["property_id"] for c in checks],
